@@ -49,7 +49,7 @@ def judge(case):
     off = np.cumsum([0] + sizes)
     v.nontrivial = len(set(sizes)) >= 2
     base = {}
-    sc0 = quant.Scales(b0, env)
+    sc0 = quant.Scales(b0, env, shells=shells)
     for q in quants:
         if not q.density:
             base[q.name] = a = lib(q, b0, env)
